@@ -20,6 +20,8 @@ import Martian.VdrBuild
 import Proofs.VdrBuild
 import Martian.VdrVal
 import Proofs.VdrVal
+import Martian.VdrAll
+import Proofs.VdrAll
 
 namespace Props.C04
 open Martian.Vdr
@@ -282,7 +284,50 @@ theorem clone_keeps_holders (s : St) (disk : List DiskEnt) :
     (∀ a h, Holds (cloneFork s disk) a h ↔ Holds s a h) ∧ Fresh (cloneFork s disk) :=
   ⟨fun a h => cloneFork_holds s disk a h, ⟨rfl, rfl⟩⟩
 
+/-! ### the whole pipestance -/
+
+/-- **kill_safe_pipestance.**  All producer forks of a pipestance side by
+side, their events interleaved in any way, consumer completions seen by all
+of them (`grun`): after every global history every fork is exactly where its
+own projection of the history takes it, and for every volatile fork whatever
+it has removed below its files/ directories is referenced only by arguments
+whose every holder is a consumer that has completed. -/
+theorem kill_safe_pipestance (fs : List PFork) (evs : List GEv) :
+    grun fs evs = fs.map (fun f => { f with st := run f.cfg f.st (proj f.id evs) }) ∧
+    ∀ f ∈ fs, CfgOK f.cfg f.st → Fresh f.st → f.cfg.volatile = true →
+      ∀ d ∈ (run f.cfg f.st (proj f.id evs)).removed, isTmp d.kind = false →
+        ∀ a h, Holds f.st a h → refs f.cfg a d.path = true →
+          ∃ n, h = some n ∧ n ∈ (run f.cfg f.st (proj f.id evs)).doneNodes :=
+  ⟨grun_eq fs evs, fun f _ ok fr hv => kill_safe f.cfg f.st (proj f.id evs) ok fr hv⟩
+
+/-- … in particular every fork of the product keeps what an unfinished
+consumer's argument references, and what the top level or a retain holds. -/
+theorem args_present_at_start_pipestance (fs : List PFork) (evs : List GEv) (f : PFork) (hf : f ∈ fs)
+    (ok : CfgOK f.cfg f.st) (fr : Fresh f.st) (hv : f.cfg.volatile = true) (a : Arg) (h : Holder)
+    (hh : Holds f.st a h) (hn : ∀ n, h = some n → n ∉ (run f.cfg f.st (proj f.id evs)).doneNodes) :
+    ∃ f' ∈ grun fs evs, f'.id = f.id ∧
+      ∀ d ∈ f.st.disk, isTmp d.kind = false → refs f.cfg a d.path = true → d ∈ f'.st.disk := by
+  refine ⟨{ f with st := run f.cfg f.st (proj f.id evs) }, ?_, rfl, ?_⟩
+  · rw [grun_eq]; exact List.mem_map.mpr ⟨f, hf, rfl⟩
+  · intro d hd ht hr
+    have i := (Inv.init f.cfg f.st fr).run ok hv (proj f.id evs)
+    rcases i.split d hd with h1 | h1
+    · exact h1
+    · obtain ⟨m, e, hm⟩ := i.safe d h1 ht a h hh hr
+      exact absurd hm (hn m e)
+
 /-! ### non-vacuity -/
+
+/-- two forks, interleaved: the completion of `C` is seen by both -/
+example :
+    let fs : List PFork := [⟨"P1", exCfg, exSt⟩, ⟨"P2", exCfg, exSt⟩]
+    let evs : List GEv := [.fork "P1" .removeEmpty, .fork "P2" .cacheMap, .fork "P1" .cacheMap, .fork "P1" .kill,
+                           .nodeDone "C", .fork "P2" .kill]
+    proj "P1" evs = [.removeEmpty, .cacheMap, .kill, .nodeDone "C"] ∧
+    proj "P2" evs = [.cacheMap, .nodeDone "C", .kill] ∧
+    (grun fs evs).map (fun f => f.st.disk.length) = [3, 1] := by
+  refine ⟨rfl, rfl, by decide⟩
+
 
 /-- the construction hypotheses are satisfiable and the conclusions are not
 vacuous: `B` is registered for `A.o` (a file) but not for `A.n` (an int), the
